@@ -886,6 +886,104 @@ fn main()
         }
     }
 
+    // 11. wide combinator gates (33 and more operands) through the real apply_gate
+    for &w in [33usize, 34, 40, 64, 65].iter()
+    {
+        if !deep && (w == 40 || w == 64) { continue; }
+        let ok = std::panic::catch_unwind(std::panic::AssertUnwindSafe(|| {
+            let n = w + 1;
+            // terms on w operands
+            let mut parity = format!("Comp par {} {}", w, w - 1);
+            for k in 0..(w - 1) { parity.push_str(&format!(" CX 2 {} {}", k, w - 1)); }
+            let mut fan = format!("Comp fan {} {}", w, w - 1);
+            for k in 1..w { fan.push_str(&format!(" CX 2 0 {}", k)); }
+            let mut layer = format!("Comp lay {} {}", w, 2 * w);
+            for k in 0..w { layer.push_str(&format!(" H 1 {}", k)); }
+            for k in 0..w { layer.push_str(&format!(" S 1 {}", k)); }
+            let mut chain = format!("Loop l 2 ch {} {}", w, w - 1);
+            for k in 0..(w - 1) { chain.push_str(&format!(" CX 2 {} {}", k, k + 1)); }
+            let mut kron = String::new();
+            for k in 0..(w - 1) { kron.push_str(if k % 3 == 0 { "Kron H " } else if k % 3 == 1 { "Kron S " } else { "Kron X " }); }
+            kron.push_str("Z");
+            let terms = [parity, fan, layer, chain, kron];
+            // tableaux: negative signs on low qubits, rows that agree on the last 32 operands
+            let mut tabs: Vec<StabilizerTableau> = vec![];
+            let mut t = StabilizerTableau::new(n);
+            t.apply_gate(&X::new(), &[0]).unwrap();
+            tabs.push(t.clone());
+            t.apply_gate(&X::new(), &[1]).unwrap();
+            t.apply_gate(&Y::new(), &[2]).unwrap();
+            tabs.push(t.clone());
+            t.apply_gate(&H::new(), &[0]).unwrap();
+            t.apply_gate(&H::new(), &[w - 1]).unwrap();
+            tabs.push(t.clone());
+            t.apply_gate(&CX::new(), &[0, w]).unwrap();
+            t.apply_gate(&S::new(), &[1]).unwrap();
+            t.apply_gate(&H::new(), &[1]).unwrap();
+            tabs.push(t.clone());
+            let fwd: Vec<usize> = (0..w).collect();
+            let shifted: Vec<usize> = (1..=w).collect();
+            let rev: Vec<usize> = (0..w).rev().collect();
+            for tb in tabs.iter()
+            {
+                let ts = text(tb);
+                for (ti, term) in terms.iter().enumerate()
+                {
+                    op_tgate(&mut out, &ts, &fwd, term, None);
+                    if ti < 2 { op_tgate(&mut out, &ts, &shifted, term, None); op_tgate(&mut out, &ts, &rev, term, None); }
+                }
+            }
+        })).is_ok();
+        out.case("stream wide-combinators (marker: this generator stream of the harness ran to its end without a panic in the code under test)", if ok { "ok" } else { "panic" });
+    }
+
+    // 12. range-level histories with reset_all after a splitting measurement
+    {
+        use rand::SeedableRng;
+        let nh = if deep { 400 } else { 80 };
+        for k in 0..nh
+        {
+            let n = 2 + (k % 2);
+            let shots = rng.range(8, 24) as usize;
+            let seed = rng.next();
+            let variant = k % 5;
+            let r = guarded(std::panic::AssertUnwindSafe(|| {
+                let mut r = rand::rngs::StdRng::seed_from_u64(seed);
+                let mut s = StabilizerState::new(n, shots);
+                let mut res = ndarray::Array1::<u64>::zeros(shots);
+                let mut e = s.apply_gate(&H::new(), &[0]);
+                if e.is_ok() { e = s.measure_into(0, 0, &mut res, &mut r); }          // splits the runs
+                if variant == 3 && e.is_ok()
+                {
+                    e = s.apply_gate(&H::new(), &[1]);
+                    if e.is_ok() { e = s.measure_into(1, 3, &mut res, &mut r); }      // a further split
+                }
+                if e.is_ok() { s.reset_all(); }
+                if variant == 4 && e.is_ok() { s.reset_all(); }                        // twice
+                // every shot is |0..0> now: flip qubit 1 in every shot and read it out
+                if e.is_ok()
+                {
+                    e = if variant == 2 { s.apply_conditional_gate(&vec![true; shots], &X::new(), &[1]) }
+                        else { s.apply_gate(&X::new(), &[1]) };
+                }
+                if e.is_ok() { e = if variant == 1 { s.peek_into(1, 1, &mut res, &mut r) } else { s.measure_into(1, 1, &mut res, &mut r) }; }
+                // and qubit 0, which was measured before the reset, must read 0 everywhere
+                if e.is_ok() { e = s.measure_into(0, 2, &mut res, &mut r); }
+                match e
+                {
+                    Err(e) => show_err(&e),
+                    Ok(()) => match s.verif_snapshot()
+                    {
+                        q1tsim::verif::Snapshot::Stabilizer { counts, .. } =>
+                            format!("words {} | counts {}", join(&res.to_vec()), join(&counts)),
+                        _ => "no-snapshot".to_string()
+                    }
+                }
+            }));
+            out.case(&format!("hist2 {} {} {}", n, shots, variant), &match r { Ok(a) => a, Err(e) => e });
+        }
+    }
+
     let n = out.finish();
     eprintln!("c03: {} cases", n);
 }
